@@ -52,6 +52,8 @@ struct FnDir {
     macros: Vec<(String, String)>,
     tpl_line: usize,
     tpl_file: String,
+    /// alternative contract texts (`@@alt`): tried by the driver when the first does not fit
+    alts: Vec<FnDir>,
 }
 
 #[derive(Debug, Default, Clone)]
@@ -185,6 +187,22 @@ fn parse_template(path: &Path, nodes: &mut Vec<Node>) {
                             closed = true;
                             break;
                         }
+                        "alt" => {
+                            // everything so far is variant k; what follows overrides it in variant k+1
+                            let mut base = d.clone();
+                            base.alts.clear();
+                            let mut alts = std::mem::take(&mut d.alts);
+                            alts.push(base);
+                            d.alts = alts;
+                        }
+                        "clear" => match rest.as_str() {
+                            "befores" => d.befores.clear(),
+                            "loops" => d.loops.clear(),
+                            "closures" => d.closures.clear(),
+                            "pre" => d.pre.clear(),
+                            "post" => d.post.clear(),
+                            other => die(&format!("{sctx}: @@clear {other}?")),
+                        },
                         "name" => d.name = Some(rest),
                         "ret" => d.ret = Some(rest),
                         "generics" => d.generics = Some(rest),
@@ -223,6 +241,14 @@ fn parse_template(path: &Path, nodes: &mut Vec<Node>) {
                 }
                 if !closed {
                     die(&format!("{ctx}: @@{kw} block without @@end"));
+                }
+                if !d.alts.is_empty() {
+                    // variants in template order: alts[0] (first), ..., d (last)
+                    let mut variants = std::mem::take(&mut d.alts);
+                    variants.push(d.clone());
+                    let mut first = variants.remove(0);
+                    first.alts = variants;
+                    d = first;
                 }
                 nodes.push(Node::Func(d));
             }
@@ -970,6 +996,7 @@ fn main() {
     let mut canary = false;
     let mut stubs: Vec<String> = vec![];
     let mut nospec = false;
+    let mut variants: HashMap<String, usize> = HashMap::new();
     let mut i = 1;
     while i < args.len() {
         match args[i].as_str() {
@@ -988,6 +1015,14 @@ fn main() {
             "--canary" => {
                 canary = true;
                 i += 1;
+            }
+            "--variant" => {
+                for kv in args[i + 1].split("%%") {
+                    if let Some((k, v)) = kv.rsplit_once('=') {
+                        variants.insert(k.to_string(), v.parse().unwrap_or(0));
+                    }
+                }
+                i += 2;
             }
             "--nospec" => {
                 nospec = true;
@@ -1125,7 +1160,17 @@ fn main() {
                     "edits": counts,
                 }));
             }
-            Node::Func(d) => {
+            Node::Func(d0) => {
+                let key_sel = if d0.is_slice {
+                    format!("{} @from:{}", d0.selector, d0.from.clone().unwrap_or_default())
+                } else if let Some(k) = d0.hoist {
+                    format!("{} @hoist:{}", d0.selector, k)
+                } else {
+                    d0.selector.clone()
+                };
+                let vsel = variants.get(&key_sel).copied().unwrap_or(0);
+                let d: &FnDir = if vsel == 0 || vsel > d0.alts.len() { d0 } else { &d0.alts[vsel - 1] };
+                let n_variants = 1 + d0.alts.len();
                 let key0 = if d.is_slice {
                     format!("{} @from:{}", d.selector, d.from.clone().unwrap_or_default())
                 } else if let Some(k) = d.hoist {
@@ -1442,6 +1487,7 @@ fn main() {
                     "awaits_erased": ed.awaits,
                     "closures": ed.closure_idx, "loops": ed.loop_idx,
                     "has_requires": spec_has_requires(&d.spec),
+                    "key": key_sel, "variants": n_variants, "variant": vsel,
                     "stubbed": stub_this,
                     "edits": counts,
                 }));
